@@ -103,6 +103,28 @@ func runC08(cx *Ctx, r *Report) {
 	// ------------------------------------------------ callback discipline
 	cx.c08Callback(r)
 	cx.lostUpdateRule(r, []string{"service", "oracle", "random"}, 40)
+	// the expired-batch body schedules the next batch only for a repeated context that is
+	// below its total (or unlimited)
+	{
+		n := 0
+		for _, x := range per["EndBlock"] {
+			if x.ev.Kind != "store.set" || !hasPrefix(x.ev, "service:NewRequestBatchKey=0x10") {
+				continue
+			}
+			cf, s := closureAncestor(x.ev)
+			if cf == nil {
+				continue
+			}
+			n++
+			why1, ok1 := x.w.pathGuardAny(cf, s, guardAlt{Value: true, Suffix: ".Repeated"}, guardAlt{Value: true, Suffix: ".Repeated}"})
+			why2, ok2 := x.w.pathGuardAny(cf, s, guardAlt{Value: true, Subs: []string{".RepeatedTotal", " < 0)"}}, guardAlt{Value: true, Subs: []string{".BatchCounter", " < ", ".RepeatedTotal"}})
+			r.check(ok1 && ok2, "reschedule-condition", "EndBlock", x.ev.Pos(cx), "the next batch is scheduled only when Repeated ∧ (RepeatedTotal < 0 ∨ BatchCounter < RepeatedTotal): "+why1+"; "+why2, fmt.Sprintf("the expired-batch body schedules another batch without Repeated ∧ (RepeatedTotal < 0 ∨ BatchCounter < RepeatedTotal) decided on every path (Repeated: %v, below total: %v): a context would run past its total or a one-shot context would repeat", ok1, ok2))
+		}
+		if n == 0 {
+			r.violate("reschedule-condition", "EndBlock", "", "the expired-batch body no longer schedules the next batch of a repeated context")
+		}
+	}
+	r.requireCount("reschedule-condition", 1)
 	{
 		walks := map[string]*c13Walk{}
 		cx.singleEntryRule(r, func(e Entry) *c13Walk {
